@@ -75,7 +75,7 @@ var c12Endpoints = []string{
 	"    /items:\n        GET:\n            return ok <: T\n",
 	"    /items/{id <: int}:\n        GET ?limit=int?&must=string:\n            return ok <: T\n            return 404 <: Other\n",
 	"    /items/{id <: int}/sub/{key <: string}:\n        POST (body <: T [~body], trace <: string [~header]) ?a=int&b=string?&c=bool:\n            return 200 <: sequence of T\n        DELETE:\n            return 204\n",
-	"    /a:\n        PUT (body <: Other [~body]):\n            return 200 <: Other\n    /b:\n        PATCH (h1 <: string [~header], h2 <: int [~header]):\n            return ok <: sequence of Other\n            return 500 <: Other\n",
+	"    /a:\n        PUT (body <: Other [~body, ~required]):\n            return 200 <: Other\n    /b:\n        PATCH (h1 <: string [~sensitive, ~header], h2 <: int [~header]):\n            return ok <: sequence of Other\n            return 500 <: Other\n",
 }
 
 func (c12) Bounds(tier string) map[string]interface{} {
